@@ -146,7 +146,7 @@ func (fr *frame) printable(t types.Type, v Value, depth int) any {
 	}
 	if t != nil {
 		for _, name := range []string{"Error", "String"} {
-			if f := m.Prog.LookupMethod(t, nil, name); f != nil {
+			if f := m.findMethod(t, nil, name); f != nil {
 				sig := f.Signature
 				if sig.Params().Len() == 0 && sig.Results().Len() == 1 && isString(sig.Results().At(0).Type()) {
 					if p, isPtr := v.(*Value); isPtr && p == nil {
@@ -330,7 +330,7 @@ func init() {
 		if wi.T == nil {
 			fr.tpanic("nil-deref", "fmt.Fprintf to nil writer")
 		}
-		f := fr.m.Prog.LookupMethod(wi.T, nil, "Write")
+		f := fr.m.findMethod(wi.T, nil, "Write")
 		bs := bytesOf(s)
 		buf := make([]Value, len(bs))
 		for i, b := range bs {
@@ -357,7 +357,7 @@ func init() {
 		if e.T == nil {
 			return Iface{}
 		}
-		f := fr.m.Prog.LookupMethod(e.T, nil, "Unwrap")
+		f := fr.m.findMethod(e.T, nil, "Unwrap")
 		if f == nil || f.Signature.Results().Len() != 1 {
 			return Iface{}
 		}
@@ -394,7 +394,7 @@ func init() {
 
 func (fr *frame) unwrapAll(e Iface) []Iface {
 	m := fr.m
-	f := m.Prog.LookupMethod(e.T, nil, "Unwrap")
+	f := m.findMethod(e.T, nil, "Unwrap")
 	if f == nil || f.Signature.Params().Len() != 0 || f.Signature.Results().Len() != 1 {
 		return nil
 	}
@@ -432,7 +432,7 @@ func (fr *frame) errorsIs(errV, targetV Value, depth int) bool {
 			return true
 		}
 	}
-	if f := m.Prog.LookupMethod(err.T, nil, "Is"); f != nil && f.Signature.Params().Len() == 1 && f.Signature.Results().Len() == 1 {
+	if f := m.findMethod(err.T, nil, "Is"); f != nil && f.Signature.Params().Len() == 1 && f.Signature.Results().Len() == 1 {
 		r := m.call(fr, fr.curPos, f, []Value{err.V, target})
 		if rt, ok := r.(*term.Term); ok && m.Decide(rt) {
 			return true
@@ -471,7 +471,7 @@ func (fr *frame) errorsAs(errV, targetV Value, depth int) bool {
 		m.store(tp, copyVal(err.V))
 		return true
 	}
-	if f := m.Prog.LookupMethod(err.T, nil, "As"); f != nil && f.Signature.Params().Len() == 1 && f.Signature.Results().Len() == 1 {
+	if f := m.findMethod(err.T, nil, "As"); f != nil && f.Signature.Params().Len() == 1 && f.Signature.Results().Len() == 1 {
 		r := m.call(fr, fr.curPos, f, []Value{err.V, targetV})
 		if rt, ok := r.(*term.Term); ok && m.Decide(rt) {
 			return true
